@@ -43,7 +43,7 @@ pub fn prop() -> Prop {
         stub: &["transport", "store", "glue", "random source", "allocator wrapper", "teardown observer"],
         independent: &[],
         ref_sample: |_| 0,
-        required_probes: &["drop_SigningKey", "drop_SecretShare", "drop_KeyPackage", "drop_SigningNonces", "drop_dkg_round1_SecretPackage", "drop_dkg_round2_SecretPackage", "drop_dkg_round2_Package", "heap_block_scanned", "control_manually_drop_keeps_secret", "control_copy_type_keeps_secret", "zeroize_KeyPackage", "zeroize_SecretShare", "zeroize_SigningNonces", "zeroize_SigningShare", "zeroize_Nonce", "zeroize_dkg_round1_SecretPackage", "zeroize_dkg_round2_SecretPackage", "zeroize_dkg_round2_Package", "debug_checked", "non_interference_checked"],
+        required_probes: &["drop_SigningKey", "drop_SecretShare", "drop_KeyPackage", "drop_SigningNonces", "drop_dkg_round1_SecretPackage", "drop_dkg_round2_SecretPackage", "drop_dkg_round2_Package", "heap_block_scanned", "control_manually_drop_keeps_secret", "control_copy_type_keeps_secret", "zeroize_KeyPackage", "zeroize_SecretShare", "zeroize_SigningNonces", "zeroize_SigningShare", "zeroize_Nonce", "zeroize_dkg_round1_SecretPackage", "zeroize_dkg_round2_SecretPackage", "zeroize_dkg_round2_Package", "debug_checked", "non_interference_checked", "refresh_round1_secret_included"],
         prepare: None,
     }
 }
@@ -205,6 +205,34 @@ fn exec_c<C: Suite>(scen: &Scenario) -> Exec {
             }
         }
     }
+    // the distributed refresh stores the same package type with a DIFFERENT shape (commitment one entry shorter than the
+    // coefficient list, zero constant term): a participant holds these between refresh rounds too
+    let mut refresh_r2: Vec<round2::SecretPackage<C>> = Vec::new();
+    {
+        let n = scen.n;
+        let mut secs = Vec::new();
+        let mut pkgs = std::collections::BTreeMap::new();
+        for j in 0..n as usize {
+            let rng = crate::simrng::SimRng::good(stream(scen.seed, scen.run, &format!("c20/refresh/{j}")));
+            if let Ok((s, p)) = frost::keys::refresh::refresh_dkg_part1::<C, _>(sim.ids[j], n, scen.t, rng) {
+                secs.push(s);
+                pkgs.insert(sim.ids[j], p);
+            }
+        }
+        if secs.len() == n as usize {
+            let mut m = pkgs.clone();
+            m.remove(&sim.ids[0]);
+            if let Ok((s2, _)) = frost::keys::refresh::refresh_dkg_part2::<C>(secs[0].clone(), &m) {
+                refresh_r2.push(s2);
+            }
+            rep.probe("refresh_round1_secret_included");
+            // first in the list so that truncation below keeps it
+            r1_secrets.insert(0, secs[0].clone());
+            if let Some(last) = secs.last() {
+                r1_secrets.insert(1, last.clone());
+            }
+        }
+    }
     let mut r2_secrets: Vec<round2::SecretPackage<C>> = Vec::new();
     {
         let n = scen.n as usize;
@@ -237,7 +265,8 @@ fn exec_c<C: Suite>(scen: &Scenario) -> Exec {
     key_packages.truncate(3);
     secret_shares.truncate(3);
     nonces.truncate(3);
-    r1_secrets.truncate(3);
+    r1_secrets.truncate(4);
+    r2_secrets.extend(refresh_r2);
     r2_pkgs.truncate(3);
 
     // ---- generic checks ------------------------------------------------------------------------------------------
